@@ -79,7 +79,10 @@ def analyse_shortcuts(db, R, kinds, covered):
         if fn['n'] != 'match' or '/tao/pegtl/' not in fn['pat'] or len(fn.get('params', [])) != 1: continue
         eol = eol_of(fn)
         if eol is None: continue
+        from ..exc import walk
+        if walk(fn.get('body'), lambda n: n.get('k') == 'call' and n.get('cn') == 'match', []): continue      # combinators: their sub-rules do the consuming
         cls = fn.get('cls') or {}
+        if not cls: continue
         rule = (cls.get('s') or fn['q']).replace(TI, '').replace(T, '').replace('result_on_found::', '')
         ch = EOLCH[eol]
         try:
@@ -99,13 +102,332 @@ def analyse_shortcuts(db, R, kinds, covered):
             R.sample({'rule': rule, 'eol': eol, 'paths': len(outs), 'shortcut_calls': sum(1 for k, v, s in outs for e in s.eff if e[0] == 'bump' and e[2] != 'bump')})
 
 
+def check_bump_fn(db, fn):
+    """P-bump: the three internal bump functions against the per-byte definition, for counts 0..4, both line-ending characters,
+    symbolic initial counters"""
+    import itertools
+    name = fn['n']; probs = []
+    ps = fn['params']
+    for ch in (10, 13):
+        for count in range(0, 5):
+            sp = Space()
+            for v in ('L', 'C', 'B'): sp.var(v, 4)
+            for k in range(max(count, 1)): sp.var('b%d' % k, 256)
+            it = Interp(db, sp)
+            st = St(sp.full())
+            L, C, B = (Val({sp.byname[v].level: [10 * (i + 1) + x for x in range(4)]}) for i, v in enumerate(('L', 'C', 'B')))
+            st.env[ps[0]['id']] = Rec({'data': Ptr('cur', 0), 'byte': B, 'line': L, 'column': C})
+            st.env[ps[1]['id']] = Val.const(count)
+            if len(ps) > 2: st.env[ps[2]['id']] = Val.const(ch)
+            for kind, v, s in outcomes(it, fn, st):
+                if kind not in ('fall', 'return'): raise Unmodelled('path ends with ' + kind)
+                r = s.env[ps[0]['id']]
+                for pat in itertools.product((0, 1), repeat=count):
+                    reg = s.cond
+                    for k, is_ch in enumerate(pat):
+                        x = sp.restrict(sp.byname['b%d' % k].level, ((ch, ch),))
+                        reg = sp.AND(reg, x) if is_ch else sp.DIFF(reg, x)
+                    if reg is None: continue
+                    if name == 'bump':
+                        want_line = binop('+', L, Val.const(sum(pat)))
+                        last = max([k for k, x in enumerate(pat) if x], default=None)
+                        want_col = Val.const(count - last) if last is not None else binop('+', C, Val.const(count))
+                    elif name == 'bump_in_this_line':
+                        want_line = L; want_col = binop('+', C, Val.const(count))
+                    else:
+                        want_line = binop('+', L, Val.const(1)); want_col = Val.const(1)
+                    want = {'line': want_line, 'column': want_col, 'byte': binop('+', B, Val.const(count))}
+                    for f, w in want.items():
+                        d = binop('-', r.f[f], w)
+                        bad = reg if (d.is_const() and d.off) else (None if d.is_const() else sp.AND(reg, sp.sumset(d.tabs, ((-INF, -1 - d.off), (1 - d.off, INF)))))
+                        if bad is not None:
+                            probs.append('%s( it, %d%s ) over bytes %s: %s is not %s' % (name, count, ', %r' % chr(ch) if len(ps) > 2 else '', ''.join('E' if x else '.' for x in pat) or '(none)', f,
+                                         {'line': 'line + number of line-ending characters', 'column': 'one plus the bytes since the last line-ending character', 'byte': 'byte + count'}[f] if name == 'bump' else 'as defined'))
+                    if not (isinstance(r.f['data'], Ptr) and r.f['data'].off == count): probs.append('%s( it, %d ): data is advanced by %s' % (name, count, getattr(r.f['data'], 'off', '?')))
+    return sorted(set(probs))[:6]
+
+
+def loop_shape(fn):
+    """internal::bump visits the bytes 0..count-1 in order: for( i = 0; i < count; ++i )"""
+    from ..exc import walk
+    loops = walk(fn.get('body'), lambda n: n.get('k') in ('For', 'While', 'Do'), [])
+    if len(loops) != 1 or loops[0]['k'] != 'For': return ['expected exactly one for loop over the bytes']
+    lp = loops[0]; probs = []
+    d = (lp.get('init') or {}).get('decls') or []
+    if len(d) != 1 or (d[0].get('init') or {}).get('v') != 0: probs.append('the loop does not start at byte 0')
+    c = lp.get('cond') or {}
+    if not (c.get('k') == 'bin' and c.get('op') == '<' and (c.get('l') or {}).get('k') == 'cast' or (c.get('l') or {}).get('k') == 'ref'): probs.append('the loop condition is not i < count')
+    else:
+        from ..exc import leaves
+        if ('ref', 'count') not in leaves(c.get('r')) or ('ref', 'i') not in leaves(c.get('l')): probs.append('the loop condition is not i < count')
+    inc = lp.get('inc') or {}
+    if not (inc.get('k') == 'un' and inc.get('op') == '++'): probs.append('the loop does not advance byte by byte')
+    return probs
+
+
+def analyse_bump(db, R, kinds):
+    for fn in db.order:
+        if fn['q'] not in (TI + 'bump', TI + 'bump_in_this_line', TI + 'bump_to_next_line'): continue
+        try:
+            probs = check_bump_fn(db, fn)
+            if fn['n'] == 'bump': probs += loop_shape(fn)
+        except (Unmodelled, Blowup, KeyError) as e:
+            R.broke('%s: %s' % (fn['q'], e)); continue
+        kinds['bump'] += 1
+        R.ob(ok=not probs, key=('bump', fn['n']))
+        for p in probs: R.violation('P-bump', 'internal/bump.hpp::' + fn['n'], p, key=('bump', fn['n'], p))
+
+
+def call_of(fn):
+    """the single call statement of a forwarding function"""
+    b = fn.get('body') or {}
+    ss = [x for x in b.get('s', []) if x.get('k') != 'Null']
+    if len(ss) != 1 or ss[0].get('k') != 'Expr' or (ss[0].get('e') or {}).get('k') != 'call': return None
+    return ss[0]['e']
+
+
+def analyse_forward(db, R, kinds, covered):
+    """P-forward for memory_input_base< eager > and buffer_input (bump*), memory_input_base< lazy > (pointer advance, position(), byte())"""
+    from ..exc import walk, leaves
+    for fn in db.order:
+        q = fn['q']; cls = (fn.get('cls') or {})
+        tn = cls.get('tn') or ''
+        if tn not in (TI + 'memory_input_base', T + 'buffer_input') or '/tao/pegtl/' not in fn['pat']: continue
+        lazy = 'tracking_mode::lazy' in (cls.get('s') or '')
+        m = re.search(r'eol::(\w+)', cls.get('s') or '')
+        pol = m.group(1) if m else None
+        site = '%s::%s' % ('memory_input.hpp' if 'memory_input' in tn else 'buffer_input.hpp', fn['n'])
+        probs = None
+        if fn['n'] in ('bump', 'bump_in_this_line', 'bump_to_next_line'):
+            probs = []
+            if lazy:
+                ss = [x for x in (fn.get('body') or {}).get('s', [])]
+                e = (ss[0].get('e') if len(ss) == 1 and ss[0].get('k') == 'Expr' else None) or {}
+                if not (e.get('k') == 'bin' and e.get('op') == '+=' and (e.get('l') or {}).get('n') == 'm_current' and leaves(e.get('r')) == [('ref', 'in_count')]):
+                    probs.append('a lazy input must advance m_current by the count and nothing else')
+            else:
+                c = call_of(fn)
+                if c is None or c.get('cq') != TI + fn['n']: probs.append('does not forward to internal::%s' % fn['n'])
+                else:
+                    a = c.get('args', [])
+                    covered[site_of(c['loc'])] += 1
+                    if not a or (a[0].get('n') != 'm_current'): probs.append('the cursor passed on is not m_current')
+                    if len(a) < 2 or leaves(a[1]) != [('ref', 'in_count')]: probs.append('the count passed on is not the argument')
+                    if fn['n'] == 'bump' and (len(a) < 3 or a[2].get('v') != EOLCH.get(pol)): probs.append('the line-ending character passed on is not Eol::ch of the input (%r)' % (a[2].get('v') if len(a) > 2 else None))
+        elif fn['n'] == 'position' and lazy and 'memory_input_base' in tn:
+            probs = []
+            calls = walk(fn.get('body'), lambda n: n.get('k') == 'call' and n.get('cq') == TI + 'bump', [])
+            decls = [d for s2 in walk(fn.get('body'), lambda n: n.get('k') == 'Decl', []) for d in s2.get('decls', [])]
+            if len(calls) != 1: probs.append('the lazy position is not computed by one internal::bump')
+            else:
+                a = calls[0]['args']
+                c0 = [d for d in decls if d.get('id') == a[0].get('d')]
+                if not c0 or ('member', 'm_begin') not in leaves(c0[0].get('init')): probs.append('the position is not recomputed from a copy of the begin iterator')
+                lv = leaves(a[1])
+                if not (('ref', 'it') in lv and ('member', 'm_begin') in lv and walk(a[1], lambda n: n.get('k') == 'bin' and n.get('op') == '-', [])): probs.append('the number of bytes bumped is not it - m_begin.data')
+                if a[2].get('v') != EOLCH.get(pol): probs.append('the line-ending character is not Eol::ch')
+                rets = walk(fn.get('body'), lambda n: n.get('k') == 'Return', [])
+                if not rets or ('ref', c0[0]['n'] if c0 else '?') not in leaves(rets[-1].get('e')): probs.append('the returned position is not built from the bumped copy')
+        elif fn['n'] == 'byte' and 'memory_input_base' in tn:
+            probs = []
+            rets = walk(fn.get('body'), lambda n: n.get('k') == 'Return', [])
+            lv = leaves(rets[-1].get('e')) if rets else []
+            if lazy:
+                if ('member', 'byte') not in lv or not walk(rets[-1].get('e'), lambda n: n.get('k') == 'bin' and n.get('op') == '+', []): probs.append('lazy byte() does not add the initial byte of the begin iterator to the distance from the beginning')
+            elif ('member', 'byte') not in lv: probs.append('eager byte() is not the tracked byte counter')
+        if probs is None: continue
+        kinds['forward'] += 1
+        R.ob(ok=not probs, key=('forward', fn['disp']))
+        for p in probs: R.violation('P-forward', site, '%s: %s' % ((cls.get('s') or '').replace(T, '')[:90], p), key=('forward', site, pol, lazy, p))
+
+
+def analyse_subinputs(db, R, kinds):
+    """P-subinput: a rule that parses a sub-range with a second input (rematch) must start that input with the position counters of
+    the main input at that point: the input is constructed from a counter-carrying iterator, and where the main iterator is a plain
+    pointer (lazy tracking) the counters come from in.position( it )"""
+    from ..exc import walk, leaves
+    for fn in db.order:
+        if fn['n'] != 'match' or '/tao/pegtl/' not in fn['pat']: continue
+        cons = walk(fn.get('body'), lambda n: n.get('k') == 'construct' and (n.get('cq') or '').startswith(T + 'memory_input<'), [])
+        if not cons: continue
+        rule = ((fn.get('cls') or {}).get('s') or fn['q']).replace(T, '')[:80]
+        lazy = 'tracking_mode::lazy' in fn['disp']
+        for c in cons:
+            probs = []
+            cpt = c.get('cpt') or []
+            if not cpt or 'inputerator' not in cpt[0]:
+                probs.append('the second input is constructed from %s: its byte, line and column start at 0:1:1 instead of the position of the main input' % (cpt[0] if cpt else '?'))
+            else:
+                a0 = c['args'][0]
+                calls = walk(a0, lambda n: n.get('k') == 'call' and n.get('cu') in db.fns, [])
+                for cl in calls:
+                    g = db.get(cl['cu'])
+                    if g is None or g.get('rt', '').startswith('const') or 'inputerator' not in (cl.get('crt') or ''): continue
+                    if (cl.get('crt') or '').endswith('&'): continue            # hands the counter-carrying iterator through
+                    mk = walk(g.get('body'), lambda n: n.get('k') == 'construct' and (n.get('cq') or '').endswith('inputerator::inputerator') and len(n.get('args', [])) == 4, [])
+                    pos = walk(g.get('body'), lambda n: n.get('k') == 'call' and n.get('cn') == 'position', [])
+                    if not mk or not pos: probs.append('%s builds the begin iterator without the counters of in.position( it )' % g['q'].replace(T, ''))
+                    else:
+                        lv = leaves(mk[0])
+                        if [x for x in lv if x[0] == 'member'] != [('member', 'byte'), ('member', 'line'), ('member', 'column')]: probs.append('%s does not pass byte, line and column of the position in this order' % g['q'].replace(T, ''))
+            kinds['subinput'] += 1
+            R.ob(ok=not probs, key=('subinput', fn['disp']))
+            for pmsg in probs: R.violation('P-subinput', core.relfile(fn['pat']) + '::' + rule.split('<')[0] + '::match', '%s (%s tracking): %s' % (rule, 'lazy' if lazy else 'eager', pmsg), key=('subinput', rule, lazy, pmsg))
+
+
+FIELDS = {'data', 'byte', 'line', 'column'}
+WRITERS = {   # who may write the cursor of an input or its counters (confirmed by reading; one reason each)
+    TI + 'bump': 'the definition', TI + 'bump_in_this_line': 'shortcut (P-bump, P-shortcut)', TI + 'bump_to_next_line': 'shortcut (P-bump, P-shortcut)',
+    TI + 'memory_input_base<>::bump': 'lazy tracking: pointer advance', TI + 'memory_input_base<>::bump_in_this_line': 'lazy tracking: pointer advance',
+    TI + 'memory_input_base<>::bump_to_next_line': 'lazy tracking: pointer advance', TI + 'memory_input_base<>::restart': 'explicit reset to a given position',
+    T + 'memory_input<>::restart': 'reset to the iterator saved by a rewind guard', T + 'memory_input<>::rewind_restore': 'whole-iterator restore by the rewind guard',
+    T + 'buffer_input<>::rewind_restore': 'whole-iterator restore by the rewind guard', T + 'buffer_input<>::discard': 'moves the data pointer together with the buffer contents; counters untouched',
+}
+RESTORE_CALLERS = (TI + 'rewind_guard<',)
+
+
+def cursor_lhs(l):
+    if not isinstance(l, dict): return None
+    while l.get('k') == 'cast': l = l['e']
+    if l.get('k') == 'member' and l.get('n') in FIELDS and 'inputerator' in ((l.get('b') or {}).get('t') or '').replace('inputerator_t', ''): return 'counter ' + l['n']
+    if l.get('k') == 'member' and l.get('n') == 'm_current': return 'm_current'
+    if l.get('k') == 'call' and l.get('cn') == 'inputerator': return 'inputerator()'
+    t = l.get('t') or ''
+    if l.get('k') in ('ref', 'member') and 'internal::inputerator' in t and not t.startswith('const'): return 'iterator ' + str(l.get('n'))
+    return None
+
+
+def writers_of(path):
+    """( {generic function name: [what is written]}, [callers of rewind_restore] ) for one extracted unit"""
+    db = core.DB([path])
+    found = collections.defaultdict(set); callers = set(); nfn = 0
+    def walk(n, fn):
+        if isinstance(n, dict):
+            k = n.get('k')
+            if k == 'bin' and (n['op'] == '=' or (n['op'].endswith('=') and n['op'] not in ('==', '!=', '<=', '>='))):
+                w = cursor_lhs(n.get('l'))
+                if w: found[fn['q']].add(w + ' ' + n['op'])
+            elif k == 'un' and n.get('op') in ('++', '--'):
+                w = cursor_lhs(n.get('e'))
+                if w: found[fn['q']].add(w + ' ' + n['op'])
+            elif k == 'call':
+                if n.get('opc') in ('=', '+=', '-=', '++', '--') and n.get('args'):
+                    w = cursor_lhs(n['args'][0])
+                    if w: found[fn['q']].add(w + ' operator' + n['opc'])
+                if n.get('cn') == 'rewind_restore': callers.add(fn['q'])
+            for v in n.values(): walk(v, fn)
+        elif isinstance(n, list):
+            for v in n: walk(v, fn)
+    for fn in db.order:
+        if '/tao/pegtl/' not in fn['pat'] and 'rewind_restore' not in json.dumps(fn.get('body'))[:0]: pass
+        nfn += 1
+        walk(fn.get('body'), fn)
+    return {re.sub(r'<.*>', '<>', q): sorted(v) for q, v in found.items()}, sorted(callers), nfn
+
+
+def analyse_writers(R, kinds, tier):
+    from .. import repo_units
+    paths = core.extract(list(units.INPUTS) + list(units.POS) + list(units.RULES) + list(units.DISPATCH))
+    if tier == 'thorough': paths = paths + repo_units.extract_all(R)
+    res = repo_units.map_units('sa.checks.c06', 'writers_of', paths)
+    allw = collections.defaultdict(set); callers = set(); nfn = 0
+    for pth, (w, c, n) in res.items():
+        nfn += n
+        for q, v in w.items(): allw[q] |= set(v)
+        callers |= set(c)
+    R.cov['functions_scanned_for_cursor_writes'] = nfn
+    for q, v in sorted(allw.items()):
+        kinds['writer'] += 1
+        ok = q in WRITERS
+        R.ob(ok=ok, key=('writer', q))
+        if not ok: R.violation('P-writers', q.replace(T, ''), 'writes the cursor of an input (%s) but is not one of the position primitives: a position written here is not a function of the consumed prefix' % ', '.join(sorted(v)), key=('writer', q))
+    for q in sorted(callers):
+        kinds['restore-caller'] += 1
+        ok = q.startswith(RESTORE_CALLERS)
+        R.ob(ok=ok, key=('restore', q))
+        if not ok: R.violation('P-writers', q.replace(T, '')[:120], 'calls rewind_restore outside of a rewind guard', key=('restore', q))
+    missing = [q for q in WRITERS if q not in allw]
+    if missing: R.broke('expected writers not seen (the table is out of date or the universe lost them): %s' % missing)
+
+
+SCAN_TARGETS = (T + 'unsigned_rule', T + 'unsigned_rule_with_action', T + 'maximum_rule', T + 'maximum_rule_with_action',     # the signed rules reach the same internal scanners through a nested parse
+               
+                T + 'http::chunk_size', T + 'raw_string')
+
+
+def scan_sites(db, u, maxlen):
+    """class strings through a hand-written scanner: every position shortcut must skip bytes that are not line endings (of any policy)"""
+    from .. import scan
+    import time
+    fn = db.get(u); t0 = time.time()
+    raw = (fn.get('cls') or {}).get('tn') == T + 'raw_string'
+    if raw: maxlen += 1
+    try:
+        parts = scan.byte_partition(db, fn, (10, 13), merge_gaps=raw)
+        probs = []; sites = collections.Counter(); n = 0
+        for w in scan.class_strings(parts, maxlen):
+            n += 1
+            mo = []
+            for r in scan.run_on(db, fn, w, oracles=(T + 'internal::accumulate_digit',), eol_check={10, 13}, mon_out=mo):
+                for v in r[4]:
+                    if v[0] == 'S-eol': probs.append((v[2], '%s on input %r' % (v[1], bytes(w))))
+            for k, c in mo[0].sites.items(): sites[k] += c
+    except (scan.Budget, scan.Unmodelled) as e:
+        return {'broken': str(e)}
+    return {'n': n, 'probs': probs[:20], 'sites': dict(sites), 'wall': time.time() - t0, 'classes': len(parts)}
+
+
+def analyse_scanners(R, kinds, covered, tier):
+    from .. import repo_units
+    maxlen = 3 if tier == 'quick' else 4
+    for unit in (units.INTEGER, units.RAW):
+        paths = core.extract(list(unit)); db = core.DB(paths)
+        items = []
+        for fn in db.order:
+            cls = fn.get('cls') or {}
+            q = cls.get('tn') or cls.get('q')
+            if fn['n'] != 'match' or q not in SCAN_TARGETS or '/tao/pegtl/' not in fn['pat']: continue
+            if unit is units.RAW and q == T + 'raw_string' and (eol_of(fn) != 'lf_crlf' or cls.get('s') != T + "raw_string<'[', '=', ']'>"): continue
+            items.append(fn['u'])
+        for u, res in repo_units.map_items('sa.checks.c06', 'scan_sites', paths, items, extra=(maxlen,)).items():
+            fn = db.get(u)
+            name = ((fn.get('cls') or {}).get('s') or fn['q']).replace(T, '')[:100]
+            if res.get('broken'):
+                R.broke('scanner %s: %s' % (name, res['broken'])); continue
+            kinds['scanner'] += 1
+            if os.environ.get('VERIF_DEBUG'): print(name, res['n'], res['classes'], '%.1fs' % res['wall'])
+            for k, c in res['sites'].items(): covered[site_of(k)] += c
+            R.ob(ok=not res['probs'], key=('scanner', fn['disp']))
+            seen = set()
+            for loc, msg in res['probs']:
+                site = site_of(loc)
+                if site in seen: continue
+                seen.add(site)
+                R.violation('P-shortcut', site.split(':')[0] + '::' + site.split(':')[1], '%s: %s' % (name, msg), key=('scan', site, name))
+
+
 def run(tier):
     R = core.Result('C06', tier)
     kinds = collections.Counter(); covered = collections.Counter()
     db = core.DB(core.extract(list(units.POS)))
     analyse_shortcuts(db, R, kinds, covered)
+    analyse_bump(db, R, kinds)
+    analyse_forward(db, R, kinds, covered)
+    analyse_subinputs(db, R, kinds)
+    analyse_writers(R, kinds, tier)
+    analyse_scanners(R, kinds, covered, tier)
     sites = shortcut_sites()
-    R.cov['shortcut_sites'] = len(sites); R.cov['covered'] = dict(covered)
-    print(sorted(set(sites) - set(covered)))
+    R.cov['shortcut_sites'] = len(sites); R.cov['shortcut_sites_covered'] = sorted(set(sites) & set(covered))
+    for site in sorted(set(sites) - set(covered)):
+        R.broke('the position shortcut at %s (%s) is not reached by any analysed instantiation: it cannot be justified' % (site, sites[site]))
     R.cov['obligations_by_kind'] = dict(kinds)
-    return R.finish('x', 'y')
+    for k, fl in (('shortcut', 220), ('bump', 3), ('forward', 55), ('scanner', 12), ('subinput', 2), ('writer', 11)):
+        if kinds.get(k, 0) < fl: R.broke('only %d %s obligations (floor %d)' % (kinds.get(k, 0), k, fl))
+    R.assumptions = ['UTF-16/32 and multi-byte binary rules are outside the statement (documented exclusion); the ICU rules use the general bump()',
+                     'single-unit and fixed-string rules are decided exactly for all inputs whose relevant window is 9 bytes; the digit, chunk-size and raw-string scanners on all class strings up to the bound; '
+                     'internal::bump is evaluated for counts 0..4 with symbolic counters and its loop shape (i = 0; i < count; ++i) is checked, which gives the per-byte definition for every count',
+                     'backtracking restores whole iterators (rewind guards; P-writers shows nothing else writes the cursor), so histories do not matter']
+    return R.finish(
+        'Who-may-write inventory of the cursor; exact evaluation of the bump primitives; justification of every position shortcut call site by the byte facts known on the paths that reach it '
+        '(exact set analysis for the single-unit, string and end-of-line rules over all five policies, class strings for the hand-written scanners); forwarding structure of the input classes, lazy recomputation, sub-inputs.',
+        'one obligation per (rule, policy) / primitive / forwarding function / scanner / writer')
